@@ -98,8 +98,46 @@ fn mrc(a: &[&str]) -> (ManifestResourceConstraint, usize) {
     (c, 7 + n)
 }
 
+/// grc <lower kind> <lower value> <upper kind> <upper value> <n required> <ids..> <allowed kind 0 list|1 any> <n allowed>
+///     <ids..>   builds a ManifestResourceConstraint::General with id sets; returns it and the number of tokens used
+fn grc(a: &[&str]) -> (ManifestResourceConstraint, usize) {
+    let nr: usize = a[4].parse().unwrap();
+    let required = idset(&a[5..5 + nr]);
+    let k = 5 + nr;
+    let na: usize = a[k + 1].parse().unwrap();
+    let allowed = idset(&a[k + 2..k + 2 + na]);
+    let c = ManifestResourceConstraint::General(GeneralResourceConstraint {
+        required_ids: required,
+        lower_bound: if a[0] == "0" { LowerBound::NonZero } else { LowerBound::Inclusive(dec(a[1])) },
+        upper_bound: if a[2] == "0" { UpperBound::Inclusive(dec(a[3])) } else { UpperBound::Unbounded },
+        allowed_ids: if a[k] == "1" { AllowedIds::Any } else { AllowedIds::Allowlist(allowed) },
+    });
+    (c, k + 2 + na)
+}
+
 fn run(a: &[&str]) -> String {
     match a[0] {
+        "grc_valid_nf" => {
+            let (c, _) = grc(&a[1..]);
+            format!("val {}", if c.is_valid_for_non_fungible_use() { 1 } else { 0 })
+        }
+        "grc_valid_f" => {
+            let (c, _) = grc(&a[1..]);
+            format!("val {}", if c.is_valid_for_fungible_use() { 1 } else { 0 })
+        }
+        "mrc_valid_nf" => {
+            let (c, _) = mrc(&a[1..]);
+            format!("val {}", if c.is_valid_for_non_fungible_use() { 1 } else { 0 })
+        }
+        "grc_nf" => {
+            let (c, k) = grc(&a[1..]);
+            let m: usize = a[1 + k].parse().unwrap();
+            let ids = idset(&a[2 + k..2 + k + m]);
+            match c.validate_non_fungible(&ids) {
+                Ok(()) => "ok 0".to_string(),
+                Err(_) => "err".to_string(),
+            }
+        }
         "nfid_from_str" => {
             match NonFungibleLocalId::from_str(&String::from_utf8(hex(a.get(1).copied().unwrap_or(""))).unwrap()) {
                 Ok(NonFungibleLocalId::Integer(v)) => format!("ok {}", v.value()),
